@@ -6,6 +6,7 @@ use super::Ctx;
 use crate::corpus::{self, Source};
 use crate::treedump::{self, Ids};
 use crate::util::*;
+use ast_grep_core::matcher::MatcherExt;
 use ast_grep_core::{Language, MatchStrictness, Matcher, Node, Pattern, StrDoc};
 use ast_grep_language::SupportLang;
 use serde_json::{json, Value};
@@ -356,6 +357,71 @@ pub fn cut_unit(ctx: &Ctx, rng: &mut Rng, o: &mut Out) {
       }
     }
   }
+  // left-nested code: a pattern cut from a node that is the LEFTMOST descendant of an enclosing node
+  // the same pattern matches too (`a.b().c()` and `$O.$M()`, `a + b + c` and `$L + $R`): the search
+  // reports the inner node as well as the outer one, although both start at the same byte
+  let mut nested_cases = 0usize;
+  for src in sources.iter().filter(|s| !s.name.starts_with("deep/")) {
+    let grep = src.lang.ast_grep(&src.text);
+    let root = grep.root();
+    let mut here = 0usize;
+    for outer in root.dfs() {
+      if here >= 4 {
+        break;
+      }
+      if !outer.is_named() || outer.range().len() > 200 || has_error(&outer) {
+        continue;
+      }
+      // the leftmost descendant of the same kind
+      let mut inner = None;
+      let mut cur = outer.clone();
+      loop {
+        let first = cur.children().next();
+        let Some(c) = first else { break };
+        if c.range().start != outer.range().start {
+          break;
+        }
+        if c.is_named() && c.kind_id() == outer.kind_id() && c.range().len() < outer.range().len() {
+          inner = Some(c.clone());
+          break;
+        }
+        cur = c;
+      }
+      let Some(inner) = inner else { continue };
+      // every named child of the inner node becomes a hole
+      let kids: Vec<N> = inner.children().filter(|c| c.is_named() && c.range().len() > 0).collect();
+      if kids.is_empty() {
+        continue;
+      }
+      let t = inner.text().to_string();
+      let base = inner.range().start;
+      let mut text = String::new();
+      let mut at = 0usize;
+      for (i, k) in kids.iter().enumerate() {
+        text.push_str(&t[at..k.range().start - base]);
+        text.push_str(&format!("$V{i}"));
+        at = k.range().end - base;
+      }
+      text.push_str(&t[at..]);
+      let Ok(pat) = Pattern::try_new(&text, src.lang) else { continue };
+      if pat.match_node(inner.clone()).is_none() || pat.match_node(outer.clone()).is_none() {
+        continue;
+      }
+      here += 1;
+      nested_cases += 1;
+      let found: Vec<usize> = root.find_all(&pat).map(|m| m.get_node().node_id()).collect();
+      let (has_inner, has_outer) = (found.contains(&inner.node_id()), found.contains(&outer.node_id()));
+      if !has_inner || !has_outer {
+        o.oracle(
+          "cut-matches",
+          false,
+          json!({"fp": format!("cut-matches search: left-nested code, find_all reports outer={has_outer} inner={has_inner}"),
+                 "lang": src.lang.to_string(), "file": src.name, "outer": [outer.range().start, outer.range().end], "inner": [inner.range().start, inner.range().end], "pattern": text}),
+        );
+      }
+    }
+  }
+  o.oracle("cut-matches-left-nested", true, json!({"cases": nested_cases}));
   o.oracle("cut-matches-done", true, json!({"cases": oracle_cases, "guard_pass": guard_pass, "guard_total": guard_total}));
 }
 
